@@ -294,18 +294,22 @@ def generic_family(run, replay, *, hcv, trace_mod, gen, rules, level, assumption
         behs = write_behs(bpath, groups)
     run.build_harness()
     tpath = os.path.join(run.dir, 'trace.ndjson')
-    out = run.harness(hcv, ['--beh', bpath, '--trace', tpath, '--seed', run.seed, '--tier', run.tier])
+    rextra = []
+    if replay and isinstance(replay.get('observed'), dict) and replay['observed'].get('cell'):
+        rextra = ['--extra', 'cell=' + str(replay['observed']['cell'])]
+    out = run.harness(hcv, ['--beh', bpath, '--trace', tpath, '--seed', replay.get('seed', run.seed) if replay else run.seed, '--tier', run.tier] + rextra)
     log('  ' + out.strip().splitlines()[-1][:300])
     viols, ok, _ = run.validate(trace_mod, trace_mod + '.cfg', tpath)
     lines = read_ndjson(tpath)
 
-    def confirm(b, rule):
+    def confirm(b, rule, line=None):
         p2 = os.path.join(run.dir, 'confirm.ndjson')
         t2 = os.path.join(run.dir, 'confirm-trace.ndjson')
         with open(p2, 'w') as f:
             f.write(json.dumps(b) + '\n')
+        extra = ['--extra', 'cell=' + str(line['cell'])] if line and line.get('cell') else []
         for attempt in range(3):      # schedule-dependent findings may need more than one execution
-            run.harness(hcv, ['--beh', p2, '--trace', t2, '--seed', run.seed + attempt, '--tier', run.tier])
+            run.harness(hcv, ['--beh', p2, '--trace', t2, '--seed', run.seed + (attempt if not extra else 0), '--tier', run.tier] + extra)
             v2, _, _ = run.validate(trace_mod, trace_mod + '.cfg', t2)
             if any(v[0] == rule for v in v2):
                 return True
@@ -898,7 +902,11 @@ def charstack_gen(run):
             lists.append([s for s in w if s['a'] == 'ReadList'][:1])
         else:
             attacks.append((g, [{k: v for k, v in s.items() if k not in ('exp', 'ids')} for s in w]))
-    groups = [('word', reg), ('list', lists)] + [('attack:' + g, [a]) for g, a in attacks]
+    must = [[dict(a='Sub', tok='none'), dict(a='LocalSet', tok='v1'), dict(a='LocalSet', tok='v2')],
+            [dict(a='Sub', tok='none'), dict(a='RemoteWrite', tok='v1'), dict(a='LocalSet', tok='v2'), dict(a='RemoteRead', tok='none')],
+            [dict(a='RemoteWrite', tok='v1'), dict(a='RemoteWrite', tok='v1'), dict(a='AccRead', tok='none')],
+            [dict(a='RemoteWrite', tok='v0'), dict(a='RemoteWrite', tok='v2'), dict(a='RemoteRead', tok='none')]]
+    groups = [('word', reg), ('list', lists)] + [('attack:' + g, [a]) for g, a in attacks] + [('attack:must-run', must)]
     return groups, dict(register_words_enumerated=nreg, register_words_replayed=len(reg), word_len=n, id_lists=len(lists))
 
 
@@ -914,8 +922,11 @@ def charstack_family(run, replay=None):
             return '%s/list=%s' % (rule, ','.join(sorted(set(line.get('kinds', [])))))
         perms = line.get('perms', [])
         return '%s/%s,fmt=%s,perms=%s' % (rule, line.get('a'), line.get('fmt'), '+'.join(perms))
-    return generic_family(run, replay, hcv='charstack', trace_mod='CharStackTrace', gen=charstack_gen, rules=CS_RULES, level='model_checking',
-                          assumptions=['every zero-argument characteristic constructor found in /repo/characteristic at build time is put into one attribute database (plus filler accessories: 5, 8, 45 / 155 accessories) served by hc\'s real HTTP server (hap/http.NewServer) to a pair-verified reference controller over an encrypted TCP connection',
+    def sanity(lines, behs):
+        if sum(x.get('events', 0) for x in lines if x.get('ev') == 'op') == 0:
+            raise ToolTrouble('vacuous run: no EVENT was observed on any characteristic with event permission')
+    return generic_family(run, replay, hcv='charstack', trace_mod='CharStackTrace', gen=charstack_gen, rules=CS_RULES, level='model_checking', sanity=sanity,
+                          assumptions=['every zero-argument characteristic constructor found in /repo/characteristic at build time is put into one attribute database (plus filler accessories: 5, 8, 45 / 155 accessories) served by a real ip transport to a pair-verified reference controller over an encrypted TCP connection',
                                        'value tokens are concretised per format: both booleans, integers at the declared minimum / maximum, floats at bounds and one step, tricky UTF-8 strings (quotes, backslashes, HTML characters, control characters, non-BMP runes), base64 payloads up to several frames',
                                        'numbers are compared numerically (1 and 1.0 are the same float), strings byte for byte'],
                           rule_text='TLC-generated operation words (local set, remote write, remote read, /accessories read, subscribe, unsubscribe over 3 value tokens) applied to every characteristic of the library through the full stack, and every id list up to the stated length over {readable, readable, write-only, missing}; distinct = abstract word; non-trivial = contains a write followed by a read, or a list with a failing id',
